@@ -341,9 +341,9 @@ Theorem blank_name_not_read_back :
 Proof. exact RejectFileExamples.blank_name_not_read_back. Qed.
 Print Assumptions blank_name_not_read_back.
 
-Theorem negative_start_not_read_back :
+Theorem negative_start_stops_at_zero :
   exists r, apply_patch default_options ex_lines ex_p_neg = Ok r /\ r_failed r = 1 /\
-            r_rej r = bs "--- f.txt" ++ [10%N] ++ bs "+++ f.txt" ++ [10%N] ++ bs "@@ --2 +-2 @@" ++ [10%N] ++ bs "-X" ++ [10%N] ++ bs "+Y" ++ [10%N] /\
-            parse_patch (r_rej r) FUnknown (-1) = Throw ERuntime.
-Proof. exact RejectFileExamples.negative_start_not_read_back. Qed.
-Print Assumptions negative_start_not_read_back.
+            r_rej r = bs "--- f.txt" ++ [10%N] ++ bs "+++ f.txt" ++ [10%N] ++ bs "@@ -0 +0 @@" ++ [10%N] ++ bs "-X" ++ [10%N] ++ bs "+Y" ++ [10%N] /\
+            exists p', parse_patch (r_rej r) FUnknown (-1) = Ok p' /\ map body (hunks p') = [body ex_g2].
+Proof. exact RejectFileExamples.negative_start_stops_at_zero. Qed.
+Print Assumptions negative_start_stops_at_zero.
